@@ -123,6 +123,11 @@ def bootstrap() -> dict:
     user_mod.password_context = CryptContext(
         schemes=["bcrypt", "pbkdf2_sha256"], deprecated="auto", bcrypt__rounds=4)
 
+    # locks of the application become cooperative: a thread of a burst that waits for one parks instead of
+    # blocking with the baton in its hand
+    from . import preempt
+    preempt.install_lock_seams()
+
     # import every module of the package now (request handlers are otherwise imported on first use): the
     # snapshot below must know the import-time value of every module- and class-level mutable object
     import importlib
